@@ -43,6 +43,10 @@ type Level struct {
 	SgxN, TdxN int
 	NoStatus   bool   // omit the tcbStatus member
 	TcbDate    string // "" = the usual RFC 3339 date, "<omit>" = no tcbDate member, anything else verbatim
+	// Labels picks the descriptive category / type texts of the components (they describe, they do not decide): 0 = one text
+	// everywhere, 1 = Intel's layout (TDX components 0 and 1 "TDX Module", 2 the late microcode), 2 = every TDX component "TDX Module",
+	// 3 = no category / type members, 4 = odd TDX components "TDX Module", 5 = SGX components typed "TDX Module", TDX ones "SGX"
+	Labels int
 }
 
 // IsvLevel is one isvsvn-keyed level (QE identity, TDX module identity).
@@ -78,7 +82,37 @@ type TcbInfoSpec struct {
 	Levels     []Level
 }
 
-func comps(name string, v [16]byte, n int) string {
+func compLabel(name string, i, scheme int) string {
+	tdx := name == "tdxtcbcomponents"
+	lab := func(c, t string) string { return fmt.Sprintf(`,"category":%q,"type":%q`, c, t) }
+	switch scheme {
+	case 1:
+		if tdx && i < 2 {
+			return lab("OS/VMM", "TDX Module")
+		}
+		if tdx && i == 2 {
+			return lab("OS/VMM", "TDX Late Microcode Update")
+		}
+	case 2:
+		if tdx {
+			return lab("OS/VMM", "TDX Module")
+		}
+	case 3:
+		return ""
+	case 4:
+		if tdx && i%2 == 1 {
+			return lab("OS/VMM", "TDX Module")
+		}
+	case 5:
+		if tdx {
+			return lab("BIOS", "SGX")
+		}
+		return lab("OS/VMM", "TDX Module")
+	}
+	return lab("BIOS", "Early Microcode Update")
+}
+
+func comps(name string, v [16]byte, n int, scheme ...int) string {
 	if n == -1 {
 		return ""
 	}
@@ -91,7 +125,11 @@ func comps(name string, v [16]byte, n int) string {
 		if i < 16 {
 			x = v[i]
 		}
-		s = append(s, fmt.Sprintf(`{"svn":%d,"category":"BIOS","type":"Early Microcode Update"}`, x))
+		sc := 0
+		if len(scheme) > 0 {
+			sc = scheme[0]
+		}
+		s = append(s, fmt.Sprintf(`{"svn":%d%s}`, x, compLabel(name, i, sc)))
 	}
 	return `"` + name + `":[` + strings.Join(s, ",") + "],"
 }
@@ -125,7 +163,7 @@ func isvLevels(ls []IsvLevel) string {
 func (s *TcbInfoSpec) JSON() string {
 	var ls []string
 	for _, l := range s.Levels {
-		ls = append(ls, fmt.Sprintf(`{"tcb":{%s%s"pcesvn":%d},%s%s}`, comps("sgxtcbcomponents", l.Sgx, l.SgxN), comps("tdxtcbcomponents", l.Tdx, l.TdxN), l.Pce, dateMember(l.TcbDate), statusMember(l.Status, l.NoStatus)))
+		ls = append(ls, fmt.Sprintf(`{"tcb":{%s%s"pcesvn":%d},%s%s}`, comps("sgxtcbcomponents", l.Sgx, l.SgxN, l.Labels), comps("tdxtcbcomponents", l.Tdx, l.TdxN, l.Labels), l.Pce, dateMember(l.TcbDate), statusMember(l.Status, l.NoStatus)))
 	}
 	mods := ""
 	if !s.OmitMods {
